@@ -9,6 +9,7 @@ import (
 	"fmt"
 	"os"
 	"path/filepath"
+	"reflect"
 	"runtime"
 	"strings"
 	"sync"
@@ -56,7 +57,7 @@ var methods = []method{
 	{"Show", func(s tcell.Screen, i int) { s.Show() }, true},
 	{"Sync", func(s tcell.Screen, i int) { s.Sync() }, true},
 	{"LockRegion", func(s tcell.Screen, i int) { s.LockRegion(i%5, i%3, 2, 2, i%2 == 0) }, true},
-	{"EnableMouse", func(s tcell.Screen, i int) { s.EnableMouse(tcell.MouseFlags(i%8)) }, true},
+	{"EnableMouse", func(s tcell.Screen, i int) { s.EnableMouse(tcell.MouseFlags(i % 8)) }, true},
 	{"DisableMouse", func(s tcell.Screen, i int) { s.DisableMouse() }, true},
 	{"EnablePaste", func(s tcell.Screen, i int) { s.EnablePaste() }, true},
 	{"DisablePaste", func(s tcell.Screen, i int) { s.DisablePaste() }, true},
@@ -172,6 +173,41 @@ func raceLogTail(from int64) string {
 
 var iterations = 250
 
+// staticVarForm rewrites the parameterized strings of a description into an
+// equivalent form that goes through terminfo's static variables (%PA..%PI,
+// %gA..%gI): "%p1%PA%p2%PB" in front and %gA for every %p1 and so on. Static
+// variables live in one process-wide array inside the terminfo package, so a
+// description written this way is only safe while every evaluation happens
+// under the screen lock - which is what the statement promises.
+func staticVarForm(ti *terminfo.Terminfo) {
+	conv := func(s string) string {
+		if !strings.Contains(s, "%p") || strings.Contains(s, "%i") || strings.Contains(s, "%P") || strings.Contains(s, "%g") {
+			return s
+		}
+		maxp := 0
+		for k := 1; k <= 9; k++ {
+			if strings.Contains(s, fmt.Sprintf("%%p%d", k)) {
+				maxp = k
+			}
+		}
+		pre := ""
+		for k := 1; k <= maxp; k++ {
+			pre += fmt.Sprintf("%%p%d%%P%c", k, 'A'+k-1)
+			s = strings.ReplaceAll(s, fmt.Sprintf("%%p%d", k), fmt.Sprintf("%%g%c", 'A'+k-1))
+		}
+		return pre + s
+	}
+	v := reflect.ValueOf(ti).Elem()
+	for i := 0; i < v.NumField(); i++ {
+		if f := v.Field(i); f.Kind() == reflect.String && f.CanSet() {
+			f.SetString(conv(f.String()))
+		}
+	}
+	// the two that use %i / implicit stack order, by hand
+	ti.SetCursor = "%p1%PA%p2%PB\x1b[%gA%{1}%+%d;%gB%{1}%+%dH"
+	ti.SetWindowSize = "%p1%PC%p2%PD\x1b[8;%gD%d;%gC%dt"
+}
+
 // runCase runs the methods concurrently on a live screen with the library's own
 // goroutines busy (input, resize notifications, a poller).
 func runCase(c Case) (err error) {
@@ -180,7 +216,7 @@ func runCase(c Case) (err error) {
 	var term *vt.Term
 	var sim tcell.SimulationScreen
 	switch c.Screen {
-	case "terminfo", "terminfo-latin1":
+	case "terminfo", "terminfo-latin1", "terminfo-svars":
 		var enc encoding.Encoding
 		if c.Screen == "terminfo-latin1" {
 			// an 8-bit locale: the screen's encoder is stateful and unencodable
@@ -196,6 +232,9 @@ func runCase(c Case) (err error) {
 		}
 		ti := *base
 		ti.PadChar = ""
+		if c.Screen == "terminfo-svars" {
+			staticVarForm(&ti)
+		}
 		tty = faketty.New(20, 6)
 		term = vt.New(20, 6, enc, vt.Profile{})
 		tty.Sink = func(b []byte) { term.Write(b) }
@@ -375,11 +414,15 @@ func TestProp(t *testing.T) {
 	}
 	item := 0
 	charsetSensitive := map[string]bool{"CanDisplay": true, "RegisterRuneFallback": true, "UnregisterRuneFallback": true}
-	for _, screen := range []string{"terminfo", "simulation", "terminfo-latin1"} {
+	emitters := map[string]bool{"Show": true, "Sync": true, "SetSize": true, "SetCursorStyle": true, "ShowCursor": true, "SetTitle": true, "SetClipboard": true, "SuspendResume": true, "SetContent": true}
+	for _, screen := range []string{"terminfo", "simulation", "terminfo-latin1", "terminfo-svars"} {
 		for i := range methods {
 			for j := i; j < len(methods); j++ {
 				if screen == "terminfo-latin1" && !pbt.Thorough() && !charsetSensitive[methods[i].name] && !charsetSensitive[methods[j].name] {
 					continue // quick: the 8-bit locale only for the methods that depend on it
+				}
+				if screen == "terminfo-svars" && !pbt.Thorough() && !(emitters[methods[i].name] && emitters[methods[j].name]) {
+					continue // quick: the static-variable description only for pairs of methods that evaluate parameterized strings
 				}
 				item++
 				if !sw.Mine(item) {
@@ -394,7 +437,7 @@ func TestProp(t *testing.T) {
 			}
 		}
 	}
-	pbt.Exhaustive("all unordered pairs of the 34 listed Screen methods x {terminfo screen in a UTF-8 locale, SimulationScreen}; in an ISO8859-1 locale all pairs in thorough and the pairs involving CanDisplay / RegisterRuneFallback / UnregisterRuneFallback in quick")
+	pbt.Exhaustive("all unordered pairs of the 34 listed Screen methods x {terminfo screen in a UTF-8 locale, SimulationScreen}; in an ISO8859-1 locale all pairs in thorough and the pairs involving CanDisplay / RegisterRuneFallback / UnregisterRuneFallback in quick; on a description whose parameterized strings go through terminfo static variables (process-wide state in the terminfo package) all pairs in thorough and the pairs of string-emitting methods in quick")
 	// generated larger sets
 	sets := pbt.NewSweep(t, "sets")
 	n := pbt.Pick(12, 200)
